@@ -65,6 +65,7 @@ Documented(m) ==
       [] m = "prop_bool" -> {"InvalidByteProperty"}
       [] m = "prop_len-1" -> {"InvalidPropertyLength"}
       [] m = "empty_subs" -> {"EmptySubscription"}
+      [] m = "payload_fmt" -> {"InvalidPayloadFormat"}
 LenientMatches(e, q) ==
     CASE q.st = "err"  -> SameErr(e.block, q) /\ SameErr(e.async, q)
       [] q.st = "need" -> e.block.k = "incomplete" /\ e.async.k = "err" /\ e.async.eof
